@@ -335,10 +335,23 @@ def leanchecker(modules):
 # --------------------------------------------------------------------------
 
 def load_findings(prop):
-    if not os.path.exists(KNOWN_FINDINGS):
-        return []
-    data = json.load(open(KNOWN_FINDINGS))
-    return [f for f in data.get("open", []) if f.get("property") == prop]
+    """Open findings of a property: known_findings.json plus known_findings.d/*.json
+    (read-only at run time; nothing is ever added here by a check)."""
+    out = []
+    paths = [KNOWN_FINDINGS]
+    d = KNOWN_FINDINGS[:-5] + ".d"
+    if os.path.isdir(d):
+        paths += [os.path.join(d, f) for f in sorted(os.listdir(d)) if f.endswith(".json")]
+    seen = set()
+    for p in paths:
+        if not os.path.exists(p):
+            continue
+        data = json.load(open(p))
+        for f in data.get("open", []):
+            if f.get("property") == prop and f.get("id") not in seen:
+                seen.add(f.get("id"))
+                out.append(f)
+    return out
 
 
 # --------------------------------------------------------------------------
